@@ -8,6 +8,25 @@ pub fn rule(prop: &str) -> String {
     let common = "Cases are whole simulated runs: a seeded scheduler (SplitMix64/xoshiro256**, seed = mix(VERIF_SEED, property, run index)) draws a world configuration (fees, epoch length, farm limits, users, balances) and then 25-110 steps (actor, message, arguments biased to the reached state, clock move, optional planted fault), executed against the real contracts on a cw-multi-test router behind fault-injecting bank / token-factory / wasm wrappers. evaluations = runs. distinct_nontrivial = number of distinct abstract transitions (operation kind, outcome, property-specific abstract state signature) reached by executed steps, counted as distinct 64-bit hashes; ";
     let specific = match prop {
         "C01" => "signature = (op kind, accepted/rejected, #pools, #funded pools).",
+        "C02" => "signature = deposits: (pool type, #assets, first/later, single/subset/all assets, decimals vector); withdrawals: (pool type, log10 LP amount bucket, all/part of the holder's LP).",
+        "C03" => "signature per hop = (pool type, #assets, decimals vector, zero-fee or not, reserve magnitude bucket).",
+        "C04" => "signature per swap = (#hops, pool type, #extra fees, offer magnitude bucket, receiver self/other, burn fee charged or not).",
+        "C05" => "signature = (op kind, outcome, #positions (capped), #farms (capped), some farm pays an LP token).",
+        "C06" => "signature = claims: (#reward denoms paid, until/now, #farms); other steps: (op kind, #farms, #users with open positions).",
+        "C07" => "signature per accepted claim = (until/now, #LP tokens of the claimant, #reward denoms paid, epochs spanned (capped)).",
+        "C08" => "signature per position message = (op kind, outcome, sender relative to the position: owner/other/pool manager, position state: none/open/locked/unlock instant/unlocked, #positions changed, funds attached).",
+        "C09" => "signature per emergency withdrawal = (open/closed, #active farm owners, penalty zero/positive, amount magnitude bucket, base penalty).",
+        "C10" => "signature = (op kind, outcome, #(user, LP token) weight histories (capped), #LP tokens with positions done in pieces).",
+        "C11" => "signature per farm message = (op kind, outcome, sender role or lifecycle phase of the farms closed: future/active/ended/expired, limit, fee zero/positive, fee denom same/other, #coins attached, refund frozen).",
+        "C12" => "signature = direct: (pool type, #assets, offer magnitude bucket); reverse: (request magnitude bucket); route: (#hops).",
+        "C13" => "signature per swap = (pool type, decimals vector, outcome).",
+        "C14" => "signature per single-asset deposit = (pool type, outcome, odd/even, lock/no lock, receiver self/other, #internal calls).",
+        "C15" => "signature per matrix cell = (message class, role class, funds attached, entitled or not, outcome) plus (ownership state audited, #farms, #positions).",
+        "C16" => "signature = creates: (pool type, #assets, explicit/auto id, #fee denoms, #extra fees) or the vector of violated validation predicates; later steps: (op kind, #pools).",
+        "C17" => "signature = blocked: (operation path, feature); free: (operation path, switch bits of the pools touched, outcome).",
+        "C18" => "signature per probe = (before/after genesis, log2 duration bucket, log2 epoch id bucket, position relative to the epoch boundary: first second / second second / last second / middle).",
+        "C19" => "signature per quote = (#assets, decimals vector, log10 amp, offer magnitude bucket, log10 reserve ratio offer/ask).",
+        "C20" => "signature = (op kind, outcome, #internal calls of the clean execution).",
         _ => "signature = (op kind, accepted/rejected, property-specific state abstraction).",
     };
     format!("{common}{specific}")
